@@ -15,14 +15,17 @@ def convert_to_list(item: Union[Any, List[Any]]) -> List[Any]:
     return [item]
 
 
-def regex_from_cf_string(action: str) -> Pattern:
-    # Replace *
-    action = action.replace("*", ".*")
+def regex_from_cf_string(action: str, case_sensitive: bool = False) -> Pattern:
+    parts = []
+    for char in action:
+        if char == "*":
+            parts.append(".*")
+        elif char == "?":
+            parts.append(".{1}")
+        else:
+            parts.append(re.escape(char))
 
-    # Replace ?
-    action = action.replace("?", ".{1}")
-
-    return re.compile(f"^{action}$", re.IGNORECASE)
+    return re.compile(f"^{''.join(parts)}$", 0 if case_sensitive else re.IGNORECASE)
 
 
 def not_ip(arg: Any) -> bool:
